@@ -8,6 +8,15 @@ TRUST = ["Eigen dense self-adjoint eigen-solver, LU and MatrixFunctions::exp use
          "held on the executions observed only; nothing is claimed for inputs/schedules that were not run"]
 
 VH = {
+    "C15": dict(drivers=[dict(driver="vertex", flavours=P2, timeout=60)],
+                floor=dict(quick=20, thorough=60),
+                rule="cases = (a) MatsubaraContainer4<CountingSource> x window size NM (quick 0,1,2,3,4,6 / thorough 0..8,12,16) x phase (fresh, refill after a larger window, refill after a smaller window, "
+                     "random fill chain through NM=0), whole box [-NM-3,NM+2]^3 read exhaustively with an injective call-logging source: stored set F observed from the calls made by fill(); "
+                     "(b) generated models (N=2..4, default partition) x index quadruples (all for N=2, else ~8 incl. all-equal, i=j, k=l, cross-spin) x NM in a random order of {0,1,2,3} on one Vertex4 object, "
+                     "box [-NM-2,NM+1]^3 (whole box for N=2; for N>=3 the work is bounded by the structural cost proxy P4 = sum over blocks of size^4: P4<=600 whole boxes for NM<=1 and 100-point structured samples for NM=2,3; "
+                     "P4<=3000 3 quadruples, NM in {0,1,2}, 30-point samples; larger 2 quadruples, 8-point samples; samples always contain both-delta / single-delta / no-delta points inside and outside the window; thorough doubles the sample sizes): "
+                     "V() vs V.value() bit-for-bit, V.value() vs chi - chi0 assembled from the documented formula; x {real,complex build}; "
+                     "non-trivial = (a) NM>=1, (b) some quadruple with |chi|>1e-10 and a Wick term >1e-10 observed; distinct by NM|phase|fill sequence resp. canonical model + quadruples"),
     "C18": dict(drivers=[dict(driver="index", flavours=P2, timeout=30)],
                 floor=dict(quick=200, thorough=6000),
                 rule="two kinds of cases. (A) bijection: random lattice (1-4 sites, hostile labels, 1-3 orbitals x 1-3 spins per site, ~60% heterogeneous, <=12 modes) x both ordering modes, "
@@ -99,6 +108,14 @@ HOOK_COMMITS = ["541145e"]
 NOT_YET = {}
 
 INFO = {
+    "C15": dict(technique="runtime monitor: (a) exhaustive observation of MatsubaraContainer4 through an injective call-counting source (hit/miss observed, window derived from fill's own requests and compared with the documented window); (b) Vertex4 storage vs direct value bit-for-bit and direct value vs documented chi - chi0 on generated models",
+                level_text="For every window size tried every triple of a box extending beyond the window on all sides is read through the storage; value, hit/miss status and forwarded call are observed, also after refills (grow, shrink, through 0). On generated models the vertex read through storage equals the direct value bit-for-bit and the direct value equals chi minus the documented Wick part; held on what was run.",
+                level_note="chi and G are taken from the library objects (their own correctness is C01/C12); window sizes <= 6 quick / 16 thorough for the container, <= 3 for Vertex4; N <= 4.",
+                design_ref="DESIGN.md section 3, C15"),
+    "C16": dict(technique="runtime history monitor: exactly-once / map-agreement / termination checked from jobs and maps observed on every MPI rank, plus an offline checker over hook event logs (message conservation); watchdog + event-log hang decision",
+                level_text="The real dispatcher (mpi_skel::run and the raw MPIMaster/MPIWorker loops) is run under mpiexec for many rank counts, job counts, consecutive rounds, communicator shapes and injected delays; every job execution and every returned map is collected from all ranks and checked, and the per-rank hook logs are checked offline for message conservation; schedules are sampled, the evidence counts the distinct job-to-rank maps actually seen.",
+                level_note="Exhaustive interleavings are out of reach for this technique (see DESIGN.md section 7); OpenMPI and Boost.MPI are trusted; a hang is declared only after two watchdog expiries with silent event logs.",
+                design_ref="DESIGN.md section 3, C16"),
     "C18": dict(technique="runtime monitor on generated lattices: IndexClassification observed in a forked child vs the input site list (bijection), plus metamorphic relabelling / re-ordering relation on full ED results",
                 level_text="For thousands of generated lattices incl. heterogeneous orbital/spin counts and hostile labels, in both ordering modes, size, forward and inverse look-ups, injectivity, surjectivity and out-of-range behaviour are compared with the input; for generated models spectrum, occupancies and Green's functions are shown to change only by the induced index permutation when sites are renamed or the ordering mode is switched; held on what was run.",
                 level_note="Label-hash collisions in IndexInfo::operator< cannot be reached by running and are not covered; invariance part N <= 6 (quick: 25% of the models may reach 6, thorough: 50%), default partition only; heterogeneous spin-major ordering is covered by the bijection part only.",
@@ -171,7 +188,12 @@ def info(pid):
     return INFO[pid]
 
 
-SPECIAL = {}
+def _c16(tier, seed):
+    from . import c16
+    return c16.run(tier, seed)
+
+
+SPECIAL = {"C16": _c16}
 
 
 def run(pid, tier, seed):
